@@ -63,7 +63,11 @@ def run():
             return {"cases": cases, "counterexample": "COUNTEREXAMPLE wa run %s (does not compile / does not exist): exit status 0" % (name or "missing.wa")}, 1
     return {"cases": cases, "bound": "init ending in %d ways x main ending in %d ways (return, exit 0/3/255, panic, trap), a .wa and a .wat that do not compile, a missing file; prebuilt .wasm/.wat modules (main ending by return, exit 3, panic, trap) run under lower- and upper-case extensions" % (len(inits), len(mains))}, 0
 try:
-    info, rc = run()
+    try:
+        info, rc = run()
+    except subprocess.TimeoutExpired as e:
+        # the machine is too loaded for the time budget of one wa invocation: undecided, never a violation
+        info, rc = {"error": "time budget exceeded (undecided): %s" % e}, 2
 finally:
     shutil.rmtree(tmp, ignore_errors=True)
 info.update({"name": "wa_run_status", "tier": tier})
